@@ -33,6 +33,7 @@ type genOpts struct {
 	allowLatePart  bool
 	allowAbsent    bool
 	dropCollection bool
+	sameName       bool // TestC02_SameName: same-named collections in different databases, late partition ids frequent
 	repeatNotify   bool // TestC01_Repeat: collections are also notified twice (concurrently at start, or again later)
 }
 
@@ -71,7 +72,7 @@ func genWorld(t *rapid.T, w *world, o genOpts) *genInfo {
 		parts := []*partDef{{name: "_default"}}
 		if rapid.Bool().Draw(t, "namedPartition") {
 			p := &partDef{name: "p1"}
-			if o.allowLatePart && rare(t, "latePartitionID", 3) {
+			if o.allowLatePart && (rare(t, "latePartitionID", 3) || (o.sameName && rapid.IntRange(0, 2).Draw(t, "latePartitionIDSameName") == 0)) {
 				p.lateID = true
 				gi.latePart = true
 			}
@@ -80,6 +81,10 @@ func genWorld(t *rapid.T, w *world, o genOpts) *genInfo {
 		absent := o.allowAbsent && rare(t, "absentDownstream", 3)
 		gi.absentColl = gi.absentColl || absent
 		db := rapid.SampledFrom([]string{"default", "default", "db1"}).Draw(t, "db")
+		if o.sameName {
+			db = []string{"default", "db1", "db2"}[ci]
+			w.sameName = true
+		}
 		c := w.addCollection(ci, db, srcIdx, tgtIdx, parts, absent)
 		for _, st := range c.streams {
 			usedTgt[toP(st.tgtV)]++
@@ -614,9 +619,9 @@ func (w *world) dump(out []*outPack) string {
 	return b.String()
 }
 
-func propC01C02(t *rapid.T, prop string) { propC01C02Opts(t, prop, false) }
+func propC01C02(t *rapid.T, prop string) { propC01C02Opts(t, prop, false, false) }
 
-func propC01C02Opts(t *rapid.T, prop string, repeatNotify bool) {
+func propC01C02Opts(t *rapid.T, prop string, repeatNotify, sameName bool) {
 	sc := stats.New(prop)
 	w := newWorld(worldOpts{ttIntervalMs: rapid.SampledFrom([]int{1, 10000000}).Draw(t, "ttInterval"), bufSize: rapid.SampledFrom([]int{1, 4, 16}).Draw(t, "bufSize")})
 	defer w.close()
@@ -630,7 +635,7 @@ func propC01C02Opts(t *rapid.T, prop string, repeatNotify bool) {
 		})
 		defer reader.SetVerifYield(nil)
 	}
-	gi := genWorld(t, w, genOpts{allowSkew: true, allowLatePart: true, allowAbsent: true, repeatNotify: repeatNotify})
+	gi := genWorld(t, w, genOpts{allowSkew: true, allowLatePart: true, allowAbsent: true, repeatNotify: repeatNotify, sameName: sameName})
 	drive(t, w, gi)
 	if os.Getenv("VERIF_TRACE") != "" {
 		fmt.Printf("TRACE catalog %v\n", w.describe())
@@ -650,6 +655,7 @@ func propC01C02Opts(t *rapid.T, prop string, repeatNotify bool) {
 	sc.ClassIf(gi.latePart, "late-partition-id")
 	sc.ClassIf(gi.absentColl, "collection-created-by-event")
 	sc.ClassIf(gi.interleave, "registration-after-first-feed")
+	sc.ClassIf(sameName, "same-named-collections-in-different-databases")
 	sc.ClassIf(gi.repeats > 0, "repeated-notification")
 	sc.ClassIf(gi.repeatConc > 0, "repeated-notification-concurrent")
 	sc.ClassIf(gi.unregistered > 0, "stream-waiting-for-free-channel(not fed)")
@@ -696,6 +702,12 @@ func TestC01(t *testing.T) { rapid.Check(t, func(t *rapid.T) { propC01C02(t, "C0
 // TestC01_Repeat: the same property with repeated notifications of collections in the action sequence (kept as a separate test
 // so that the draw sequence - and the saved regression inputs - of TestC01 stay unchanged).
 func TestC01_Repeat(t *testing.T) {
-	rapid.Check(t, func(t *rapid.T) { propC01C02Opts(t, "C01", true) })
+	rapid.Check(t, func(t *rapid.T) { propC01C02Opts(t, "C01", true, false) })
 }
 func TestC02(t *testing.T) { rapid.Check(t, func(t *rapid.T) { propC01C02(t, "C02") }) }
+
+// TestC02_SameName: the routing oracle over catalogs in which every collection has the same name (each in its own database) and
+// downstream partition ids are often learned only after the first message (separate test: TestC02's draw sequence is unchanged).
+func TestC02_SameName(t *testing.T) {
+	rapid.Check(t, func(t *rapid.T) { propC01C02Opts(t, "C02", false, true) })
+}
